@@ -535,6 +535,7 @@ type ModItem struct {
 	CallerFresh bool // (assumed, per call site) only memory allocated since the caller's entry
 	Elems Expr // for elems(slice)
 	MapOf Expr // for mapof(m): the domain, length and values of that map
+	In    Expr // '<comps> in <slice>': those fields of the elements of that slice
 }
 
 type FuncContract struct {
@@ -839,6 +840,14 @@ func (cs *Contracts) parseFile(path, pkg string) error {
 							return fail(err)
 						}
 						mi.After = e
+						part = strings.TrimSpace(part[:i])
+					}
+					if i := strings.Index(part, " in "); i >= 0 {
+						e, err := parseExpr(strings.TrimSpace(part[i+4:]))
+						if err != nil {
+							return fail(err)
+						}
+						mi.In = e
 						part = strings.TrimSpace(part[:i])
 					}
 					if i := strings.Index(part, " at "); i >= 0 {
